@@ -35,6 +35,38 @@ fn long_history(kind: usize, delta: f64, backlog: usize, len: usize, wscale: f64
     (len as u64, None)
 }
 
+/// Finite values and finite weights whose PRODUCT leaves the f64 range (x = v * 2^700, w = u * 2^400): sum() is then +inf,
+/// but count(), min(), max() and is_empty() are still exactly representable and must stay exact through every merge.
+fn overflow_history(kind: usize, delta: f64, backlog: usize) -> (u64, Option<(String, String)>) {
+    let mut d = td::Dg::new(kind, delta, backlog);
+    let (vs, ws) = (2f64.powi(700), 2f64.powi(400));
+    let (mut total_w, mut mn, mut mx) = (0.0f64, f64::INFINITY, f64::NEG_INFINITY);
+    for i in 0..120usize {
+        let v = (1 + (i * 7) % 13) as f64 * vs;
+        let w = [1.0, 0.5, 3.0][i % 3] * ws;
+        let r = mccore::panics::catch(|| {
+            d.insert_weighted(v, w);
+            if i % 7 == 6 {
+                let _ = d.quantile(0.5);
+            }
+        });
+        if let Err(p) = r {
+            return (i as u64, Some(("overflowing products panic".into(), format!("insert_weighted({:e}, {:e}) (#{}) panicked: {}", v, w, i + 1, p))));
+        }
+        total_w += w;
+        mn = mn.min(v);
+        mx = mx.max(v);
+        if i % 5 == 4 {
+            let c = d.clone();
+            let (cnt, empty, lo, hi) = (c.count(), c.is_empty(), c.min(), c.max());
+            if (cnt - total_w).abs() > 1e-9 * total_w || empty || lo != mn || hi != mx {
+                return (i as u64, Some(("overflowing products".into(), format!("after {} inserts of finite values x 2^700 with finite weights x 2^400: count() = {:e} (inserted weight {:e}), is_empty() = {}, min() = {:e} (expected {:e}), max() = {:e} (expected {:e})", i + 1, cnt, total_w, empty, lo, mn, hi, mx))));
+            }
+        }
+    }
+    (120, None)
+}
+
 fn main() {
     let args = parse_args();
     let mut run = Runner::new("C16", &args.tier, "model_checking");
@@ -72,6 +104,14 @@ fn main() {
         nodes += n;
         if let Some((sig, msg)) = bad {
             run.violation(Viol { property: "C16".into(), signature: format!("tdigest long history {}", sig), message: format!("{}(delta={}) backlog={} weights x{:e}: {}", td::KIND_NAMES[*k], d, b, ws, msg), replay: json!({"structure": "TDigest", "scale_function": td::KIND_NAMES[*k], "delta": d, "max_backlog_size": b, "every_weight_multiplied_by": ws, "history": "i-th op: insert_weighted(v_i, w_i), v_i = ((i*7919)%10007 - 5000)*0.37, w_i = [1, 0.5, 3, 1e-3, 250, 0][i%6]; read every 113 ops; zero weights skipped by the library"}) });
+        }
+    }
+    let ojobs: Vec<(usize, f64, usize)> = (0..4).flat_map(|k| [(k, 2.0, 0usize), (k, 20.0, 3), (k, 100.0, 10)]).collect();
+    let ores = par_map(&ojobs, n_threads(), |&(k, d, b)| overflow_history(k, d, b));
+    for ((k, d, b), (n, bad)) in ojobs.iter().zip(ores) {
+        nodes += n;
+        if let Some((sig, msg)) = bad {
+            run.violation(Viol { property: "C16".into(), signature: format!("tdigest {}", sig), message: format!("{}(delta={}) backlog={}: {}", td::KIND_NAMES[*k], d, b, msg), replay: json!({"structure": "TDigest", "scale_function": td::KIND_NAMES[*k], "delta": d, "max_backlog_size": b, "history": "i-th op: insert_weighted((1 + 7i mod 13) * 2^700, [1, 0.5, 3][i mod 3] * 2^400); quantile(0.5) every 7 ops"}) });
         }
     }
     run.ev.set("states", json!(nodes));
